@@ -79,3 +79,77 @@ def sample(rng, seq, k):
     if len(seq) <= k:
         return seq
     return rng.sample(seq, k)
+
+
+def hash_slice(seq, k, salt=""):
+    """A seed-INDEPENDENT selection of about k items of seq (by sha1 of the item), so that the thorough tier explores the
+    same finite space on every run and every quick sample is a subset of it."""
+    import hashlib
+    seq = list(seq)
+    if len(seq) <= k:
+        return seq
+    scored = sorted(seq, key=lambda x: hashlib.sha1((salt + repr(x)).encode("utf-8", "surrogatepass")).hexdigest())
+    return scored[:k]
+
+
+def families():
+    """Rule-targeted structured documents (closed, seed-independent): heading level sequences, list marker / number
+    sequences, trailing whitespace and tabs, fences, emphasis / code-span / link spacing, rules, quote spacing, and
+    multi-line inline elements followed by a trigger line.  Returns a de-duplicated list."""
+    import itertools
+    out = []
+    # headings: every level sequence of length 2..4 over 1..4 (ATX), a few setext / closed variants
+    for n in (2, 3, 4):
+        for seq in itertools.product((1, 2, 3, 4), repeat=n):
+            out.append("\n\n".join("#" * l + f" H{i}" for i, l in enumerate(seq)) + "\n")
+    for seq in itertools.product((1, 2, 3), repeat=3):
+        out.append("\n".join("#" * l + f" H{i}" for i, l in enumerate(seq)) + "\n")           # no blank lines between
+    out += ["T\n===\n\nS\n---\n\n### h\n", "T\n===\n\n### h\n\n#### k\n", "# T #\n\n### h ###\n", "#T\n\n##  S\n", " # T\n\n  ## S\n",
+            "# A\n\n# A\n\n## A\n", "# T.\n\n## S!\n", "text\n\n# late\n"]
+    # unordered lists: marker sequences, flat and nested, with indentation variants
+    for marks in itertools.product("-+*", repeat=3):
+        out.append("".join(f"{m} i{k}\n" for k, m in enumerate(marks)))
+        out.append(f"{marks[0]} a\n  {marks[1]} b\n    {marks[2]} c\n")
+    for ind in (1, 2, 3):
+        out.append(" " * ind + "- a\n" + " " * ind + "- b\n")
+        out.append("- a\n" + " " * (ind + 1) + "- b\n")
+    for sp in (1, 2, 3):
+        out.append("-" + " " * sp + "a\n-" + " " * sp + "b\n")
+        out.append("1." + " " * sp + "a\n2." + " " * sp + "b\n")
+    # ordered lists: number sequences x delimiter
+    for nums in ((1, 1, 1), (1, 2, 3), (0, 1, 2), (3, 4, 5), (1, 3, 2), (0, 0, 0), (2, 2, 2), (9, 10, 11), (10, 11, 12), (1, 2, 2)):
+        for d in ".)":
+            out.append("".join(f"{x}{d} i{k}\n" for k, x in enumerate(nums)))
+            out.append(f"{nums[0]}{d} a\n   {nums[1]}{d} b\n")
+    out += ["10. x\n", "003. ok\n", "1. a\n\n   para\n2. b\n", "1. a\n- b\n1. c\n", "- a\n\n- b\n- c\n", "text\n- a\n- b\ntext\n", "- a\n\ntext\n"]
+    # trailing whitespace / tabs
+    for tail in ("", " ", "  ", "   ", "\t", " \t", "\t ", "    "):
+        out.append("# T\n\nline" + tail + "\nnext\n")
+        out.append("- item" + tail + "\n- two\n")
+        out.append("```\ncode" + tail + "\n```\n")
+        out.append("text" + tail)
+    out += ["a\tb\n", "\ta\n", "- a\n\n\tb\n", "> a\tb\n", "```\n\tcode\n```\n", "a\n\n\n\nb\n", "a\n\n\nb\n\n\n\nc\n", "a\n\n", "a\n\n\n", "\n\na\n", "a"]
+    # fences
+    for op, cl in (("```", "```"), ("~~~", "~~~"), ("````", "````")):
+        for lang in ("", "py"):
+            for before, after in (("", ""), ("text\n", ""), ("", "text\n"), ("text\n", "text\n"), ("text\n\n", "\ntext\n")):
+                out.append(before + op + lang + "\ncode\n" + cl + "\n" + after)
+    out += ["```py\na\n```\n\n~~~py\nb\n~~~\n", "    indented\n\n```\nfenced\n```\n", "- a\n  ```\n  c\n  ```\n- b\n", "> ```\n> c\n> ```\n"]
+    # emphasis / code span / link spacing
+    out += ["a * b * c\n", "a ** b** c\n", "a _ b_ c\n", "a *b * c\n", "a __ b __ c\n", "* a *\n", "` a`\n", "`a `\n", "` a `\n", "`  a  `\n",
+            "[ a](/u)\n", "[a ](/u)\n", "[ a ](/u)\n", "![ a ](/u)\n", "[](/u)\n", "[a]()\n", "[a](#)\n", "![](/u)\n", "<b>x</b>\n", "http://x.y\n", "<http://x.y>\n"]
+    # rules and quotes
+    for a, b in itertools.product(("---", "***", "___", "- - -", "* * *", "----"), repeat=2):
+        out.append(a + "\n\n" + b + "\n")
+    out += [">  a\n", ">a\n", "> a\n>  b\n", "> a\n\n> b\n", ">   a\n> > b\n", "> - a\n>   b\n"]
+    # multi-line inline elements followed by a trigger line
+    inl = ["`\ncode `", "` code\n`", "`\ncode\n`", "`co\nde`", "` code\n   `", "[te\nxt](/u)", "[text](\n/u)", "[text](/u\n\"t\")", "![al\nt](/u)",
+           "*em\nph*", "**str\nong**", "<b\nx='1'>", "<!-- c\nd -->", "<http://a.b\n>", "[te\nxt][r]", "a\\\nb", "a  \nb"]
+    nxt = ["#b", "# b", "b", " #b", "##b ##", "- b"]
+    for i in inl:
+        for n in nxt:
+            out.append("a " + i + " b\n" + n + "\n")
+        out.append("> a " + i.replace("\n", "\n> ") + " b\n> #b\n")
+        out.append("- a " + i.replace("\n", "\n  ") + " b\n  #b\n")
+    out.append("[r]: /u\n")
+    return list(dict.fromkeys(out))
